@@ -67,6 +67,8 @@ type access struct {
 type Sched struct {
 	MapPoints bool
 	Horizon   int
+	// TimerDurations records the delay requested by every AfterFunc of this run
+	TimerDurations []time.Duration
 
 	mu      sync.Mutex
 	threads []*thread
